@@ -79,15 +79,15 @@ Definition respond (t : N) (s : sess) (r : request) : N * sess * list effect :=
   | PDI =>
     if t =? 10 then (if r_ok r then (11, upd true false false false false false, []) else rej)
     else if t =? 12 then (if s_started s && r_ok r then (13, s, [EDIVoucher]) else rej)
-    else (0, s, [])
+    else rej
   | PTO0 =>
     if t =? 20 then (if r_ok r then (21, upd true false false false false false, []) else rej)
     else if t =? 22 then (if s_started s && r_ok r then (23, s, [ERVBlob]) else rej)
-    else (0, s, [])
+    else rej
   | PTO1 =>
     if t =? 30 then (if r_ok r then (31, upd true false false false false false, []) else rej)
     else if t =? 32 then (if s_started s && r_ok r then (33, s, []) else rej)
-    else (0, s, [])
+    else rej
   | PTO2 =>
     if t =? 60 then (if r_ok r then (61, upd true false false false false false, []) else rej)
     else if t =? 62 then (if s_started s && r_ok r then (63, s, []) else rej)
@@ -104,8 +104,8 @@ Definition respond (t : N) (s : sess) (r : request) : N * sess * list effect :=
        else rej)
     else if t =? 70 then
       (if r_ok r then (71, s, if s_hmac s then [EReplace] else []) else rej)
-    else (0, s, [])
-  | PNone => (0, s, [])
+    else rej
+  | PNone => rej
   end.
 
 (* http.Handler.ServeHTTP / handleRequest / writeResponse *)
@@ -144,9 +144,8 @@ Definition handle (st : server) (r : request) : server * response * list effect 
     end
   else match proto_of t with
   | PNone => (st, RType 255, [])                                   (* unsupported message type; no token is touched *)
-  | p => if is_start t then handle_start st p r
-         else if is_client t || needs_tunnel t then handle_cont st p r
-         else (st, RType 0, [])       (* a server-to-client type: the responder has no case for it and looks at nothing *)
+  | p => if is_start t then handle_start st p r else handle_cont st p r
+         (* a server-to-client type of a handled protocol has no case in the responder: an error like any other *)
   end.
 
 Fixpoint run (st : server) (rs : list request) : server * list (response * list effect) :=
